@@ -55,6 +55,7 @@ func groups(tier string) []group {
 	gs = append(gs, group{"after-failure", enumAfterFailure})
 	gs = append(gs, group{"expansion", enumExpansion})
 	gs = append(gs, group{"cache/keys", enumCacheKeys})
+	gs = append(gs, group{"cache/keys-required", enumCacheKeysRequired})
 	gs = append(gs, group{"cache/keys-seeded", enumCacheKeysSeeded})
 	gs = append(gs, group{"cache/reqs", enumCacheReqs})
 	gs = append(gs, group{"cache/reqs-seeded", enumCacheReqsSeeded})
